@@ -11,6 +11,8 @@ CONSTANTS InitPen = 5
           Incs = {0, 5}
           Targets = {1}
           EmitMod = 1
-INVARIANTS C02_CounterNeverDecreases C01_StrictlyIncreasing C01_SeekIsSuffix
-           StepwiseEqualsFunctional BoundedOutput OnlyDoneIsFinal
+          MaxSeeks = 1
+          Kinds = {"f"}
+INVARIANTS C02_CounterNeverDecreases C01_StrictlyIncreasing C01_SeekIsSuffix C01_FollowsFullStream
+           C01_FollowsFullStream StepwiseEqualsFunctional BoundedOutput OnlyDoneIsFinal
 CHECK_DEADLOCK FALSE
